@@ -110,6 +110,12 @@ thread_local! {
     pub static CMP_LOG: std::cell::RefCell<std::collections::BTreeSet<i128>> = std::cell::RefCell::new(std::collections::BTreeSet::new());
 }
 
+thread_local! {
+    /// variables that stand for a `&mut` reference into a place (the parameter of a closure mapped over `place.iter_mut()` /
+    /// `place.chunks_mut(n)`): a match over such a variable binds into the data it refers to
+    pub static MUT_REFS: std::cell::RefCell<std::collections::BTreeSet<String>> = std::cell::RefCell::new(std::collections::BTreeSet::new());
+}
+
 pub fn no_hook(_: &Evaluator, _: &str, _: &[Val]) -> Option<Result<Val, String>> {
     None
 }
@@ -545,6 +551,7 @@ impl<'a> Evaluator<'a> {
             syn::Expr::Reference(r) if r.mutability.is_some() => &r.expr,
             syn::Expr::Unary(u) if matches!(u.op, syn::UnOp::Deref(_)) && tok(&u.expr) == "self" => &u.expr,
             syn::Expr::Path(p) if p.path.is_ident("self") => scrutinee,
+            syn::Expr::Path(p) if p.path.get_ident().map(|i| MUT_REFS.with(|m| m.borrow().contains(&i.to_string()))).unwrap_or(false) => scrutinee,
             _ => return,
         };
         let Some(place) = self.place_of(place_expr) else { return };
@@ -577,6 +584,10 @@ impl<'a> Evaluator<'a> {
                 },
                 Pat::Tuple(t) => match orig {
                     Val::Tuple(vs) if vs.len() == t.elems.len() => Val::Tuple(t.elems.iter().zip(vs.iter()).map(|(p, o)| rebuild(p, o, arm_env)).collect()),
+                    _ => orig.clone(),
+                },
+                Pat::Slice(ps) => match orig {
+                    Val::List(vs) if vs.len() == ps.elems.len() && !ps.elems.iter().any(|e| matches!(e, Pat::Rest(_))) => Val::List(ps.elems.iter().zip(vs.iter()).map(|(p, o)| rebuild(p, o, arm_env)).collect()),
                     _ => orig.clone(),
                 },
                 _ => orig.clone(),
@@ -1266,6 +1277,13 @@ impl<'a> Evaluator<'a> {
                 if full == "Vec::new" || full == "Vec::with_capacity" || full == "Vec::default" || full == "VecDeque::new" || full.starts_with("Vec::<") && (full.ends_with("::new") || full.ends_with("::with_capacity")) {
                     return Ok(Val::List(vec![]));
                 }
+                if (full == "char::from" || full == "char::from_u32" || full == "char::from_digit" && false) && args.len() == 1 {
+                    if let Val::Int { v, .. } = &args[0] {
+                        // char::from takes a u8 (Latin-1); char::from_u32 answers None for a surrogate or a value above U+10FFFF
+                        let c = u32::try_from(*v).ok().and_then(char::from_u32);
+                        return Ok(if full == "char::from" { match c { Some(c) if *v < 256 => Val::Char(c), _ => return Err(format!("char::from({})", v)) } } else { c.map(|c| Val::some(Val::Char(c))).unwrap_or(Val::none()) });
+                    }
+                }
                 if ["u8::from", "u16::from", "u32::from", "u64::from", "u128::from", "usize::from", "i32::from", "i64::from", "i128::from"].contains(&full.as_str()) && args.len() == 1 && matches!(args[0], Val::Int { .. }) {
                     return Ok(args.into_iter().next().unwrap());
                 }
@@ -1406,6 +1424,62 @@ impl<'a> Evaluator<'a> {
                     _ => Err("iterator place lost".into()),
                 }
             }
+            // `place.take()` on an Option held in a place: yields the value and leaves None behind
+            Expr::MethodCall(mc) if mc.method == "take" && mc.args.is_empty() && self.place_of(&mc.receiver).is_some()
+                && matches!(self.eval(&mc.receiver, &mut env.clone()), Ok(Val::Ctor(ref n, _, _)) if n == "Some" || n == "None") =>
+            {
+                let place = self.place_of(&mc.receiver).unwrap();
+                // a field of a `&mut` closure parameter or of a binding into one: the place is the variable itself
+                match place_get_mut(env, &place) {
+                    Some(t) => Ok(std::mem::replace(t, Val::none())),
+                    None => Err(format!("cannot resolve place {}", tok(&mc.receiver))),
+                }
+            }
+            // `place.iter_mut().map(|x| ..)` / `place.chunks_mut(n).map(|chunk| ..)`: the closure gets a `&mut` into the place — what
+            // it does to its parameter is done to the elements (evaluated eagerly, element by element)
+            Expr::MethodCall(mc) if mc.method == "map" && mc.args.len() == 1
+                && matches!(&*mc.receiver, Expr::MethodCall(im) if (im.method == "iter_mut" && im.args.is_empty() || im.method == "chunks_mut" && im.args.len() == 1) && self.place_of(&im.receiver).is_some())
+                && matches!(&mc.args[0], Expr::Closure(cl) if cl.inputs.len() == 1 && matches!(&cl.inputs[0], syn::Pat::Ident(pi) if pi.subpat.is_none())) =>
+            {
+                let Expr::Closure(cl) = &mc.args[0] else { unreachable!() };
+                let Expr::MethodCall(im) = &*mc.receiver else { unreachable!() };
+                let syn::Pat::Ident(pi) = &cl.inputs[0] else { unreachable!() };
+                let param = pi.ident.to_string();
+                let place = self.place_of(&im.receiver).unwrap();
+                let items = match self.eval(&im.receiver, env)? { Val::List(l) => l, o => return Err(format!("{} over {}", im.method, o.show())) };
+                let n = if im.method == "chunks_mut" {
+                    match self.eval(&im.args[0], env)? { Val::Int { v, .. } if v > 0 => v as usize, o => return Err(format!("chunks_mut({})", o.show())) }
+                } else { 1 };
+                let mut out = vec![];
+                let mut start = 0usize;
+                while start < items.len() {
+                    let end = (start + n).min(items.len());
+                    let arg = if im.method == "chunks_mut" { Val::List(items[start..end].to_vec()) } else { items[start].clone() };
+                    let mut e2 = env.clone();
+                    e2.insert(param.clone(), arg);
+                    let fresh = MUT_REFS.with(|m| m.borrow_mut().insert(param.clone()));
+                    let r = self.eval(&cl.body, &mut e2);
+                    if fresh {
+                        MUT_REFS.with(|m| { m.borrow_mut().remove(&param); });
+                    }
+                    let r = match r? { Val::Ctor(k, mut p, _) if k == "$return" => p.pop().unwrap_or(Val::Unit), o => o };
+                    out.push(r);
+                    merge_back_shadow_safe(env, &e2, &cl.inputs[0]);
+                    if let (Some(nv), Some(Val::List(l))) = (e2.get(&param).cloned(), place_get_mut(env, &place)) {
+                        match nv {
+                            Val::List(ch) if im.method == "chunks_mut" && ch.len() == end - start => {
+                                for (k, v) in ch.into_iter().enumerate() {
+                                    if start + k < l.len() { l[start + k] = v; }
+                                }
+                            }
+                            v if im.method == "iter_mut" => { if start < l.len() { l[start] = v; } }
+                            _ => {}
+                        }
+                    }
+                    start = end;
+                }
+                Ok(Val::List(out))
+            }
             // `place.iter_mut().try_for_each(|x| ..)` / `.for_each(..)`: the loop it stands for, so that what the closure does to `x`
             // is done to the element (see the `for x in place.iter_mut()` write-back)
             Expr::MethodCall(mc) if (mc.method == "try_for_each" || mc.method == "for_each") && mc.args.len() == 1
@@ -1509,7 +1583,7 @@ impl<'a> Evaluator<'a> {
                 *target = Val::List(sorted.into_iter().map(|(_, it)| it).collect());
                 Ok(Val::Unit)
             }
-            Expr::MethodCall(mc) if ["push", "append", "append_all", "extend", "insert", "remove", "push_str", "clear", "truncate", "pop", "pop_front", "pop_back", "push_back", "push_front", "sort", "sort_unstable", "reverse", "retain", "dedup", "swap", "drain"].contains(&mc.method.to_string().as_str())
+            Expr::MethodCall(mc) if ["push", "append", "append_all", "extend", "insert", "remove", "push_str", "clear", "truncate", "resize", "pop", "pop_front", "pop_back", "push_back", "push_front", "sort", "sort_unstable", "reverse", "retain", "dedup", "swap", "drain"].contains(&mc.method.to_string().as_str())
                 && self.place_of(&mc.receiver).is_some()
                 && matches!(self.eval(&mc.receiver, env), Ok(Val::List(_)) | Ok(Val::Str(_))) =>
             {
@@ -1564,6 +1638,13 @@ impl<'a> Evaluator<'a> {
                             Ok(Val::Unit)
                         }
                         _ => Err("truncate: bad arguments".into()),
+                    },
+                    (Val::List(l), "resize") => match (args.get(0), args.get(1)) {
+                        (Some(Val::Int { v, .. }), Some(fill)) if (0..=1_000_000).contains(v) => {
+                            l.resize(*v as usize, fill.clone());
+                            Ok(Val::Unit)
+                        }
+                        _ => Err("resize: bad arguments".into()),
                     },
                     (Val::List(l), "drain") if mc.args.len() == 1 && tok(&mc.args[0]) == ".." => {
                         let d: Vec<Val> = l.drain(..).collect();
@@ -2041,6 +2122,7 @@ impl<'a> Evaluator<'a> {
                         },
                         "to_lowercase" => return Ok(Val::Str(st.to_lowercase())),
                         "chars" => return Ok(Val::List(st.chars().map(Val::Char).collect())),
+                        "bytes" | "as_bytes" if mc.args.is_empty() => return Ok(Val::List(st.bytes().map(|b| Val::int(b as i128)).collect())),
                         "split_whitespace" | "split_ascii_whitespace" => return Ok(Val::List(st.split_whitespace().map(|w| Val::Str(w.to_string())).collect())),
                         "lines" => return Ok(Val::List(st.lines().map(|w| Val::Str(w.to_string())).collect())),
                         "replace" => {
@@ -2097,6 +2179,15 @@ impl<'a> Evaluator<'a> {
                             }
                             _ => Err(format!("{}: bad arguments", name)),
                         }
+                    }
+                    "next_multiple_of" | "div_ceil" if matches!(recv, Val::Int { input: false, .. }) && mc.args.len() == 1 => {
+                        if let (Val::Int { v: a, .. }, Val::Int { v: b, input: false }) = (&recv, self.eval(&mc.args[0], env)?) {
+                            if b > 0 && *a >= 0 {
+                                let q = (*a + b - 1) / b;
+                                return Ok(Val::int(if name == "div_ceil" { q } else { q * b }));
+                            }
+                        }
+                        return Err(format!("{} with unsupported operands", name));
                     }
                     "pow" if matches!(recv, Val::Int { input: false, .. }) => {
                         let e = self.eval(&mc.args[0], env)?;
